@@ -111,6 +111,13 @@ def path_conds_struct(ctx, fn, pr):
             cs = cmp_struct(ev, s.ast.test)
             if cs is not None:
                 out.append((cs[0], cs[1], s.label == "true", s.ast))
+                continue
+            # truthiness of a plain value: for the numeric quantities the rules ask about, `if x` is `x != 0`
+            t_, neg = s.ast.test, False
+            while isinstance(t_, ast.UnaryOp) and isinstance(t_.op, ast.Not):
+                t_, neg = t_.operand, not neg
+            if isinstance(t_, (ast.Name, ast.Attribute)):
+                out.append((ev.ev(t_), "==" if neg else "!=", s.label == "true", s.ast))
     return out
 
 
